@@ -12,7 +12,7 @@ SC=/tmp/sc_T7_pr_$NAME
 D=/tmp/sc_T7_prd_$NAME
 git -C /repo worktree remove --force "$SC" 2>/dev/null; rm -rf "$D"
 git -C /repo worktree add --detach "$SC" HEAD >/dev/null 2>&1
-( cd "$SC" && /venv/bin/python "$HERE/edits/$NAME.py" ) || { echo "$NAME: edit failed"; git -C /repo worktree remove --force "$SC"; exit 1; }
+( cd "$SC" && if [ -f "$HERE/seeded/$NAME.diff" ]; then git apply "$HERE/seeded/$NAME.diff"; else /venv/bin/python "$HERE/edits/$NAME.py"; fi ) || { echo "$NAME: edit failed"; git -C /repo worktree remove --force "$SC"; exit 1; }
 case $KERNEL in prince) G=SessionPrince_gen; P=SessionPrinceGenProofs;; honey) G=SessionHoney_gen; P=SessionHoneyGenProofs;; session) G=Session_gen; P=SessionGenProofs;; esac
 mkdir -p "$D/gen" "$D/theories"
 cp "$ROOT/coq/theories/$P.v" "$D/theories/"
